@@ -53,7 +53,11 @@ type signSpec struct {
 	tags         []string
 	// how the request handed to Sign was obtained from the one built here: "" (as built), "with-context" (a copy made by
 	// SignRequest.WithContext — the only way to give signing a deadline), "with-context-twice"; "auto" = every third case
-	derive    string
+	derive string
+	// the envelope object that signs: "" (fresh), "after-sign" (it has already produced a valid signature for the identity whose key
+	// is the one the signer under test announces), "after-parse-verify" (it was obtained by parsing such a signature and has
+	// verified it)
+	used      string
 	ts        *tsSpec // timestamping (C15); nil = nothing configured
 	longValid bool    // signer certificates valid 1951..2090 (signing times far from today)
 }
@@ -365,6 +369,9 @@ func runSignSpec(r *Runner, s signSpec, idx int) {
 			"scheme": string(s.scheme), "signer": absS, "ext": extAbs, "agent": s.agent, "ts": "notConfigured", "keyMatchesLeaf": keyMatchesLeaf}}
 	impl := map[string]any{}
 	env := newEnvelope(s.format)
+	if s.used != "" {
+		env = usedEnvelope(s.format, s.used, spec)
+	}
 	var out []byte
 	var err error
 	derive := s.derive
@@ -399,6 +406,10 @@ func runSignSpec(r *Runner, s signSpec, idx int) {
 	}
 	c := &Case{ID: fmt.Sprintf("%s-%d", s.label, idx), K: "sign", In: in, Impl: impl, Class: s.format + "/" + s.label, Tags: tags,
 		Replay: map[string]any{"format": s.format, "local": s.local, "key": s.keyID, "payload": s.payload, "scheme": string(s.scheme), "label": s.label, "request_derived": derive}}
+	if s.used != "" {
+		c.Replay.(map[string]any)["envelope_object"] = s.used + ": with a valid signature by the identity whose key is the announced " + fmt.Sprintf("%d/%d", spec.Type, spec.Size) + " (rsa2048 when there is none)"
+		c.Replay.(map[string]any)["announced_key_spec"] = fmt.Sprintf("type %d size %d", spec.Type, spec.Size)
+	}
 	if tsc != nil {
 		rp := c.Replay.(map[string]any)
 		rp["timestamping"] = s.ts.label()
@@ -453,7 +464,8 @@ func runSignSpec(r *Runner, s signSpec, idx int) {
 			impl["bytes_with_error"] = true
 		}
 		// the object must not show the failed request
-		if cc, cerr := env.Content(); cerr == nil {
+		if cc, cerr := env.Content(); cerr == nil && (s.used == "" || string(cc.Payload.Content) == s.payload) {
+			// (an object with a history goes on showing what it held: C20)
 			impl["object_shows_after_error"] = tokBytes(cc.Payload.Content)
 		}
 		r.Submit(c)
@@ -978,6 +990,26 @@ func genSign(r *Runner, prop string) {
 		}
 		jobs = append(jobs, s)
 	}
+	if prop == "C02" {
+		// C02 through the sign path: the (signer's key) x (announced key specification) matrix, each cell on a fresh envelope object
+		// and on objects that have already held a signature by the announced kind of key
+		var keep []signSpec
+		for _, j := range jobs {
+			l := j.label
+			if l == "valid" || strings.HasPrefix(l, "matrix:key-") || strings.HasPrefix(l, "single:declared-spec-") {
+				keep = append(keep, j)
+				if l != "valid" {
+					for _, u := range []string{"after-sign", "after-parse-verify"} {
+						j2 := j
+						j2.used = u
+						j2.label = l + ":object-" + u
+						keep = append(keep, j2)
+					}
+				}
+			}
+		}
+		jobs = keep
+	}
 	if prop == "C03" {
 		// C03 through the sign path: only the cases in which the signer's chain and the signing time decide
 		var keep []signSpec
@@ -991,6 +1023,34 @@ func genSign(r *Runner, prop string) {
 		jobs = keep
 	}
 	runJobs(len(jobs), func(i int) { runSignSpec(r, jobs[i], i) })
+}
+
+// usedEnvelope: an envelope object with a history — it holds a valid signature by an identity whose leaf key has the given
+// specification (RSA 2048 when no committed identity has it)
+func usedEnvelope(format, how string, spec signature.KeySpec) signature.Envelope {
+	warm := "rsa2048-0"
+	for _, k := range []string{"ec256-0", "ec384-0", "ec521-0", "rsa2048-0", "rsa3072-0", "rsa4096-0"} {
+		if keySpecOf(k) == spec {
+			warm = k
+		}
+	}
+	id := getIdentity(warm, 2)
+	env := newEnvelope(format)
+	b, err := env.Sign(baseRequest(newLocal(id), `{"targetArtifact":{"digest":"sha256:warm","size":1}}`, signature.SigningSchemeX509, baseTime().Add(-time.Minute)))
+	if err != nil {
+		panic("usedEnvelope: " + err.Error())
+	}
+	if how == "after-sign" {
+		return env
+	}
+	e2, err := signature.ParseEnvelope(mediaType(format), b)
+	if err != nil {
+		panic("usedEnvelope: " + err.Error())
+	}
+	if _, err := e2.Verify(); err != nil {
+		panic("usedEnvelope: " + err.Error())
+	}
+	return e2
 }
 
 func randomJSONObject(rng *rand.Rand) string {
